@@ -38,7 +38,7 @@ impl Compiler {
     /// meaning, applied to (the variable's local slot, a constant slot holding const_value) - or nothing at all
     /// is appended and an error tells the caller to use the generic sequence.
     fn compile_const_var_infix_expression(&mut self, varname: &str, const_value: isize, operator: &Operator) -> (r: Result<(), Error>)
-        requires sym_wf(old(self).symbols)
+        requires sym_wf(old(self).symbols), hcovers(old(self).height@, 0)
         ensures
             sym_same(final(self).symbols, old(self).symbols),
             //@VACUITY
@@ -62,7 +62,9 @@ impl Compiler {
     /// the source operator's meaning. requires: a binary or prefix operator (the parser never builds an
     /// Infix/Prefix node with Operator::Assign - assumption on the tree, listed in the evidence)
     fn compile_operator(&mut self, operator: &Operator)
-        requires *operator != Operator::Assign
+        requires *operator != Operator::Assign,
+                 // the operands are on the (static) stack: two for a binary operator, one for a prefix operator
+                 hcovers(old(self).height@, if operator_sem(*operator) != op_none() { 2int } else { 1int })
         ensures
             //@VACUITY
             final(self).last_instruction is Some,
